@@ -355,6 +355,9 @@ func (r *c10mlink) closed() (ok bool) {
 }
 
 func (r *c10mlink) dump(res string) string {
+	if blindObs { // second, query-free execution (Stream.Blind)
+		return res
+	}
 	var sb strings.Builder
 	sb.WriteString(res)
 	if r.closed() {
@@ -1369,7 +1372,7 @@ func genC10ring(g *G) {
 
 func init() {
 	register(&Stream{Name: "C10.stack", Gen: genC10stack, New: func(st *Stats) Runner { return &c10stack{s: &stack.Stack[int]{}, st: st} }})
-	register(&Stream{Name: "C10.mlink", Gen: genC10mlink, New: func(st *Stats) Runner { return &c10mlink{l: &mlink.List[int]{}, st: st} }})
+	register(&Stream{Name: "C10.mlink", Gen: genC10mlink, Blind: true, New: func(st *Stats) Runner { return &c10mlink{l: &mlink.List[int]{}, st: st} }})
 	register(&Stream{Name: "C10.mlinkq", Gen: genC10mlinkq, New: func(st *Stats) Runner { return &c10mlinkq{q: &mlink.Queue[int]{}, st: st} }})
 	register(&Stream{Name: "C10.ring", Gen: genC10ring, New: func(st *Stats) Runner { return &c10ring{st: st} }})
 }
